@@ -76,11 +76,11 @@ func Run(r *ev.Run, replay string) {
 		e.close()
 	}
 
-	concDone := make(chan struct{})
-	go func() {
-		defer close(concDone)
-		runConcurrentPart(r)
-	}()
+	// The -race child runs beside the sequential part; without one the
+	// concurrent workload runs in this process afterwards (its yield hook is
+	// process-wide).
+	concDone := make(chan string, 1)
+	go func() { concDone <- runConcurrentPart(r) }()
 
 	n := r.N(70, 1400)
 	shards := r.N(6, 14)
@@ -105,7 +105,9 @@ func Run(r *ev.Run, replay string) {
 		}(sh)
 	}
 	wg.Wait()
-	<-concDone
+	if why := <-concDone; why != "" {
+		inProcess(r, why)
+	}
 
 	res := r.Counter("diff:resolutions")
 	r.Gate("registries", int64(n))
@@ -289,7 +291,9 @@ func runReplay(r *ev.Run, path string) {
 	switch {
 	case strings.HasPrefix(f.Class, "C18:race"):
 		// A race report has no input to re-execute other than the workload itself.
-		runConcurrentPart(r)
+		if why := runConcurrentPart(r); why != "" {
+			inProcess(r, why)
+		}
 	case f.Case.Kind == "conc" && f.Case.Conc != nil && f.Case.Registry != nil:
 		st := newConcStats()
 		replayConc(f.Case, r.N(300, 3000), st)
